@@ -1233,6 +1233,11 @@ def _merge(ctx, prog):
         ok = False
         why = fmt(v)
         order = None
+        if v is not None and pname == "timestamps" and \
+                is_call_to(v, "numpy.take") and len(v.args[1]) == 2 and \
+                not v.args[2]:
+            # np.take(t, perm) of the 1-D stamp vector is t[perm]
+            v = tm.sub(v.args[1][0], v.args[1][1])
         if v is not None and v.op == "sub":
             base, order = v.args
             if is_call_to(base, "numpy.concatenate") and base.args[1]:
